@@ -2,12 +2,14 @@
 //! stdin, runs the *real* calloop built from /repo's working tree (with `--cfg calloop_verif`),
 //! and prints one observation line per effect on stdout.
 mod tok;
+mod transient;
 
 fn main() {
     let args: Vec<String> = std::env::args().collect();
     let mode = args.get(1).map(|s| s.as_str()).unwrap_or("");
     let code = match mode {
         "tok" => tok::run(),
+        "transient" => transient::run(),
         _ => {
             eprintln!("usage: vh tok|...  (line protocol on stdin)");
             2
